@@ -26,6 +26,32 @@ def parsePool (s : String) : Pool :=
 
 def bool! (s : String) : Bool := s == "1"
 
+/-- variable-arity composite ops: `add_many,d,a…`, `mul_many,d,a…`, `dot_ct,d,n,a×n,b×n`,
+`dot_pt_znx,d,n,a×n,pd,pb,pq`, `dot_pt_rnx,d,n,a×n,pd,pb`, `dot_cst_rnx,d,n,a×n,pd,pb,re,im` -/
+def parseMany (f : List String) : Option Op :=
+  match f with
+  | "add_many" :: d :: as => some (.addMany (nat! d) (as.map nat!))
+  | "mul_many" :: d :: as => some (.mulMany (nat! d) (as.map nat!))
+  | "dot_ct" :: d :: n :: rest =>
+    let k := nat! n
+    if rest.length = 2 * k then some (.dotCt (nat! d) ((rest.take k).map nat!) ((rest.drop k).map nat!)) else none
+  | "dot_pt_znx" :: d :: n :: rest =>
+    let k := nat! n
+    match rest.drop k with
+    | [pd, pb, pq] => some (.dotPtZnx (nat! d) ((rest.take k).map nat!) ⟨⟨nat! pd, nat! pb⟩, nat! pq⟩)
+    | _ => none
+  | "dot_pt_rnx" :: d :: n :: rest =>
+    let k := nat! n
+    match rest.drop k with
+    | [pd, pb] => some (.dotPtRnx (nat! d) ((rest.take k).map nat!) ⟨nat! pd, nat! pb⟩)
+    | _ => none
+  | "dot_cst_rnx" :: d :: n :: rest =>
+    let k := nat! n
+    match rest.drop k with
+    | [pd, pb, re, im] => some (.dotCstRnx (nat! d) ((rest.take k).map nat!) ⟨nat! pd, nat! pb⟩ (re == "1") (im == "1"))
+    | _ => none
+  | _ => none
+
 def parseOp (t : String) : Option Op :=
   match t.splitOn "," with
   | ["enc", d, k, pd, pb, pq] => some (.enc (nat! d) (nat! k) ⟨⟨nat! pd, nat! pb⟩, nat! pq⟩)
@@ -85,7 +111,7 @@ def parseOp (t : String) : Option Op :=
   | ["compact_copy", d, a] => some (.compactCopy (nat! d) (nat! a))
   | ["set_meta", d, pd, pb] => some (.setMeta (nat! d) ⟨nat! pd, nat! pb⟩)
   | ["dec", a, pd, pb, pq] => some (.dec (nat! a) ⟨⟨nat! pd, nat! pb⟩, nat! pq⟩)
-  | _ => none
+  | f => parseMany f
 
 /-- run the op list, continuing after `Err` with the state the failed call leaves, stopping at a panic -/
 def runAll (env : Env) : Pool → List String → List String → List String
